@@ -277,6 +277,15 @@ def run(case: dict, *, count_only: bool = False) -> Obs:
             env.spawn(f"force{idx}", cli.disconnect(force=True))
         elif act == "cancel":
             env.cancel("main")
+        elif act == "stream_list":
+            # a request whose answer never completes: the device keeps sending messages of the awaited types, each
+            # less than the request's timeout after the previous one, and never the final one
+            def streamer(s_, _payload, n=int(ev.get("n", 25)), every=float(ev.get("every", 2.0))):
+                for i in range(n):
+                    s_.send(pb.ListEntitiesSwitchResponse(key=i + 1, name="s%d" % i, object_id="s%d" % i), delay=dev.latency + i * every)
+
+            dev.handlers[11] = streamer
+            env.spawn(f"list{idx}", cli.list_entities_services())
         elif act == "cancel_disc":
             # the caller of a pending graceful disconnect() gives up (wait_for / task cancellation)
             pend = [n for n, t in env.tasks if n.startswith("disconnect") and not t.done()]
@@ -705,6 +714,8 @@ def op_bound(name: str, obs: Obs) -> float:
         return 30 + 60 * obs.n_addr + 30 + 30 + 10 + 10 + 64 + 5 + 15
     if base in ("disconnect", "final", "force"):
         return 5.0 + 10.0 + 0.5
+    if base == "list":
+        return 60.0 + 0.5  # one request: its timeout (list_entities_services waits 60 s for the final message)
     return 60.0
 
 
